@@ -120,7 +120,11 @@ fn faults(labels: &[String], rng: &mut Rng) -> Vec<(&'static str, Vec<Node>)> {
         ("displacement-out-of-range", raw(*rng.pick(&["\tldd r0, Y+64", "\tstd Z+100, r1"]))),
         ("relative-target-out-of-range", raw(*rng.pick(&["\trjmp pc+3000", "\tbreq pc+100", "\tbrne pc-100", "\trcall pc-2100"]))),
         ("operand-count", raw(*rng.pick(&["\tadd r1", "\tnop r1", "\tldi r16", "\tmov r1, r2, r3"]))),
-        ("directive-operand-count", raw(*rng.pick(&[".byte 1, 2", ".device ATmega8, ATmega16", ".byte 2, 1, 0"]))),
+        ("directive-operand-count", raw(*rng.pick(&[".byte 1, 2", ".device ATmega8, ATmega16", ".byte 2, 1, 0", ".org 0x3000 1", ".org 0x3000, 0x3001"]))),
+        ("directive-operand-count", {
+            let (open, close) = *rng.pick(&[(".if 1 no_such_symbol", ".endif"), (".if 0 no_such_symbol", ".endif"), (".if 1, 2", ".endif"), (".ifdef never_defined_flag other", ".endif"), (".ifndef never_defined_flag other", ".endif")]);
+            vec![Node::Raw(open.into()), Node::Raw(close.into())]
+        }),
         ("undefined-symbol-in-instruction", raw(*rng.pick(&["\tldi r16, no_such_symbol", "\tlds r0, no_such_symbol", "\trjmp no_such_label", "\tldi r16, low(no_such_symbol)"]))),
         // the undefined name sits where it cannot change the value: it is still an undefined name
         ("undefined-symbol-in-dead-operand", raw(*rng.pick(&["\tldi r16, 0 && no_such_symbol", "\tldi r16, 5 || no_such_symbol", "\tldi r16, 0 * no_such_symbol", ".db 1, 0 && no_such_symbol", ".dw 1 || no_such_symbol", ".set fresh_set_var = 0 && no_such_symbol", "\tldi r16, no_such_symbol & 0", "\tldi r16, (1 || no_such_symbol) + 1", ".dw no_such_symbol - no_such_symbol", "\tldi r16, 0 && (1 / 0)", ".db 1 || (1 % 0)"]))),
